@@ -8,7 +8,7 @@ ACTIONS = ["Init", "Permute", "Recase", "DecTtl", "ExpandWildcard", "Compress", 
 
 META = {
     "category": "model_checking",
-    "text": "Rrsig.tla states the RFC 4034 3.1.8.1 signed-data layout declaratively and transcribes the signer (sign_rrset / sign_sorted_rrset_in) and the validator-side reconstruction (RrsigExt::signed_data); TLC checks over owners (apex, wildcard, mixed case), 19 RRsets of 16 types, resolver transforms (permute, recase, TTL decrement, wildcard expansion, compression) and 14 kinds of alteration that transforms preserve and alterations change the signed octets. Every explored state is replayed: the buffer captured by a recording SignRaw key and the buffer rebuilt by signed_data must equal TLC's octets, real ring Ed25519 and ECDSA-P256 signatures must verify exactly when the model says so, key_tag() and DnskeyExt::digest must equal TLC's arithmetic / the evaluated digest term. Recorded runs on random RRsets of 17 types are validated by TLC.",
+    "text": "Rrsig.tla states the RFC 4034 3.1.8.1 signed-data layout declaratively and transcribes the signer (sign_rrset / sign_sorted_rrset_in) and the validator-side reconstruction (RrsigExt::signed_data); TLC checks over owners (apex, wildcard, mixed case), 19 RRsets of 16 types, resolver transforms (permute, recase, TTL decrement, wildcard expansion, compression) and 14 kinds of alteration that transforms preserve and alterations change the signed octets. Every explored state is replayed: the buffer captured by a recording SignRaw key and the buffer rebuilt by signed_data must equal TLC's octets, real ring Ed25519 and ECDSA-P256 signatures must verify exactly when the model says so, key_tag() and DnskeyExt::digest must equal TLC's arithmetic / the evaluated digest term. MC_Signer.tla models sign_sorted_rrset_in as a machine over the caller-owned scratch buffer (backend failure, retry / next RRset with the same buffer, non-empty buffer on entry; every behaviour of 3 / 4 calls replayed with a failing recording key and a failing real key). Recorded runs on random RRsets of 17 types (shared scratch buffer, injected backend failures) are validated by TLC.",
     "note": "Trusted: TLC, ring (signatures, SHA-1/256/384), the transcription of RFC 4034/4035/6840 in Rrsig.tla. Canonical RDATA uses a local per-type table (which embedded names are lower-cased) for the types exercised, not the full Rdata.tla. Signature validity times are not checked by verify_signed_data and not here. Duplicate RRs in a received RRset are outside the model (RFC 4034 6.3 allows rejecting them). RSA keys are not generated (recording key covers RSA algorithm numbers for layout only).",
     "technique": "TLA+ spec (Rrsig.tla) + TLC exhaustive; spec->impl case replay with symbolic-crypto term evaluation; impl->spec trace validation",
     "design_ref": "DESIGN.md §4 C12",
@@ -38,6 +38,16 @@ def run(ctx):
     rc, out, err, _ = ctx.run_bin("replay_dnssec", ["--selftest-perturb"], stdin_path=head)
     ctx.selftest("perturbed expectation is reported by replay_dnssec", "FAIL " in out)
     ctx.replay_cases("replay_dnssec", cases, label="rrsig")
+    # the signer as a machine over the caller's scratch buffer: failing
+    # backend, retry / next RRset with the same buffer, non-empty buffer
+    scases = os.path.join(ctx.work, "signer-cases.ndjson")
+    sm = ctx.tlc("MC_Signer", "MC_Signer_thorough" if thorough else "MC_Signer", workers=4,
+                 label="mc-signer", cases_to=scases)
+    ctx.require_ok(sm, "MC_Signer")
+    ctx.require_actions(sm, ["Init", "SignOk", "SignFails", "CallerScratch"])
+    if sm.ncases < 100:
+        raise vlib.ToolError("signer machine produced too few behaviours")
+    ctx.replay_cases("replay_dnssec", scases, label="signer-machine")
     # I->S
     n_traces = 4 if thorough else 2
     for i in range(n_traces):
